@@ -512,3 +512,44 @@ def deeponet_condition_evaluates_every_function_at_every_sampled_location(S):
     sq = tlib.power(I, Tensor(rv), 2)
     want = torchlib.t_mean(I, torchlib.t_sum(I, sq, dim=-1))
     S.ensure("loss-is-the-mean-over-functions-and-locations-of-the-squared-residual-summed-over-components", z3.eq(z3.simplify(zreal(lossv.at([() for _ in lossv.shape]))), z3.simplify(zreal(want.val.at([])))))
+
+
+@scenario("C04", [C + "HPM_EquationLoss_at_Sampler.__init__", C + "HPM_EquationLoss_at_Sampler.forward", C + "ParameterCondition.__init__", C + "ParameterCondition.forward"], configs=["hpm-at-sampler", "parameter-condition"], bounded=BOUND)
+def hpm_at_sampler_and_parameter_condition(S):
+    """HPM_EquationLoss_at_Sampler: loss = reduce(error(residual)) with the residual evaluated ONCE on exactly the
+    sampled points -- it receives, by name, the tracked coordinates, the learnable parameter and the data functions
+    evaluated at the same rows (the network enters through the user's residual);  ParameterCondition: the loss is the
+    user's penalty of the learnable parameter, by name"""
+    I = S.I
+    if S.cfg == "parameter-condition":
+        D = S.new(PARAM, [S.real("D0"), S.real("D1")], S.new(RN, "D", 2))
+        pen = RowFn("penalty", ["D"], 1, {"D": 2})
+        cond = S.new(C + "ParameterCondition", D, pen, 1.0)
+        loss = S.method(cond, "forward")
+        S.ensure("penalty-evaluated-once", len(pen.calls) == 1 and loss is pen.calls[0]["result"])
+        if len(pen.calls) == 1:
+            Dv = pen.calls[0]["kwargs"].get("D")
+            S.ensure("penalty-gets-the-parameter-by-name", isinstance(Dv, Tensor) and sorted(pen.calls[0]["kwargs"]) == ["D"])
+            if isinstance(Dv, Tensor):
+                S.forall("it-is-the-learnable-parameter", Dv, lambda q: zreal(Dv.val.at(q)) == zreal(D.f["_t"].val.at(q)))
+        return
+    w = World(S)
+    res = RowFn("hpmres", ["x", "t", "D", "f"], 2, {"x": 2, "t": 1, "D": 1, "f": 1})
+    cond = S.new(C + "HPM_EquationLoss_at_Sampler", w.model.obj, w.sobj, res, error_fn=w.E, reduce_fn=w.Rd, data_functions={"f": w.fdata}, parameter=w.D)
+    loss = S.method(cond, "forward")
+    S.ensure("sampler-asked-once-residual-error-reduce-once", len(w.sampler.calls) == 1 and len(res.calls) == 1 and len(w.E.calls) == 1 and len(w.Rd.calls) == 1)
+    if not (len(res.calls) == 1 and len(w.E.calls) == 1 and len(w.Rd.calls) == 1):
+        return
+    S.ensure("loss-is-reduce-of-error-of-residual", loss is w.Rd.calls[0]["result"] and w.Rd.calls[0]["args"][0] is w.E.calls[0]["result"] and getattr(w.E.calls[0]["args"][0], "meta", {}).get("rowfn", (None,))[0] is res)
+    kw = res.calls[0]["kwargs"]
+    S.ensure("residual-gets-exactly-its-named-arguments", sorted(kw) == ["D", "f", "t", "x"])
+    if sorted(kw) != ["D", "f", "t", "x"]:
+        return
+    for nm in ("x", "t"):
+        t = kw[nm]
+        S.forall(f"{nm}-is-the-sampled-coordinate-of-the-same-row", t, lambda q, nm=nm, t=t: zreal(t.val.at(q)) == core.select_comp(q[1][0] if q[1] else 0, len(w.cols()[nm]), [(lambda k=k: w.sample_row(0, q[0])[nm][k]) for k in range(len(w.cols()[nm]))]))
+    S.ensure("coordinates-are-tracked-leaves", all(kw[nm].requires_grad for nm in ("x", "t")))
+    f = kw["f"]
+    S.forall("f-is-the-data-function-at-the-same-row", f, lambda q: zreal(f.val.at(q)) == w.fdata.value_terms(w.sample_row(0, q[0])["t"] + w.sample_row(0, q[0])["x"])[0])
+    Dv = kw["D"]
+    S.ensure("D-is-the-learnable-parameter", Dv.val.numel_concrete() == 1 and z3.eq(z3.simplify(zreal(Dv.val.at([(), ()]))), z3.simplify(zreal(w.D.f["_t"].val.at([(), ()])))))
